@@ -189,7 +189,10 @@ def worker(job):
                 rec = dict(n1=n1, n2=n2, fired=[], status='HARNESS-ERROR ' + traceback.format_exc()[-400:], events=[], execs=[],
                            store={}, store_errors=[], alive_at_exit=[], terminated=[], inflight=[], total=0)
             rec['violations'] = monitor(case, rec) if not rec['status'].startswith('HARNESS-ERROR') else []
+            if rec['fired']:
+                rec['late'] = [e[1] for e in rec['events'][rec['fired'][0][4]:] if e[0] in ('B', 'S')]
             rec.pop('events', None)
+            rec.pop('trace', None) if not job.get('trace') else None
             out.append(rec)
     finally:
         shutil.rmtree(wd, ignore_errors=True)
